@@ -12,13 +12,23 @@ reference semantics Gms/Model/Rel.lean). Facts regenerated from /repo: Gms/Gener
   column flagged NOT NULL
 * `nullQ_engine_eq_sound_partial`: without outer joins and SUM/MIN/MAX the engine's flags are the
   sound ones; `finding_outer_join_notnull`, `finding_aggregate_notnull`: with them they are not
+* text generalisation (Gms/Model/ConvType.lean): `covers_iff` (the longest values decide),
+  `generalize_covers_partial` (CASE / IF / IFNULL / set-operation columns over two CHAR/VARCHAR or two TEXT
+  operands of ANY character sets and lengths are declared with a type that holds every operand value),
+  `finding_generalize_char_vs_text`, `byte_width_generalisation_unsound`
+* conversions: `nullConv_sound_partial` (a CAST / CONVERT / implicit set-operation conversion yields NULL only
+  if `Convert.IsNullable` says so — outside the two listed classes), `cast_frag_sound` (over every expression
+  of the fragment), `convAlways_needed` (no target can be dropped from the always-nullable list),
+  `setopFlag_sound_partial`, `finding_convert_time_notnull`, `finding_convert_blob_numeric_notnull`,
+  `finding_setop_conversion_scope_notnull`
 -/
 import Gms.Model.ResultType
+import Gms.Model.ConvType
 import Gms.Lemmas.Rel
 import Gms.Generated.C09
 
 namespace Gms.C09
-open Gms.Sql Gms.Rel Gms.ResultType
+open Gms.Sql Gms.Rel Gms.ResultType Gms.ConvType
 
 /-! ## Types -/
 
@@ -409,6 +419,191 @@ theorem finding_value_classes :
     valid (.decimal 10 2) (.dec 10000000099 2) = false ∧ valueClass (.decimal 10 2) (.dec 10000000099 2) = "decimal_precision" ∧
     valid .double (.str 1 1) = false ∧ valueClass .double (.str 1 1) = "kind_mismatch" := by decide
 
+/-! ## Text generalisation (`types.GeneralizeTypes`, text branch) -/
+
+theorem accepts_antitone (r : TextTy) (s s' : Str) (hc : s'.chars ≤ s.chars) (hb : s'.bytes ≤ s.bytes)
+    (h : accepts r s = true) : accepts r s' = true := by
+  unfold accepts at *
+  split <;> simp_all <;> omega
+
+theorem top_fits (t : TextTy) (w : Nat) (hw : 1 ≤ w) : Fits t w (top t w) := by
+  unfold Fits top accepts
+  cases ht : t.text <;> simp
+  · exact Nat.le_mul_of_pos_right _ hw
+  · exact Nat.le_mul_of_pos_right _ hw
+
+theorem top_dominates (t : TextTy) (w : Nat) (s : Str) (h : Fits t w s) :
+    s.chars ≤ (top t w).chars ∧ s.bytes ≤ (top t w).bytes := by
+  obtain ⟨ha, hcb, hbw⟩ := h
+  unfold top accepts at *
+  cases ht : t.text <;> simp [ht] at ha ⊢
+  · exact ⟨ha, Nat.le_trans hbw (Nat.mul_le_mul_right _ ha)⟩
+  · exact ⟨Nat.le_trans hcb ha, ha⟩
+
+/-- **The longest values decide**: `r` accepts the longest value of each operand iff it accepts
+every value either operand can hold (characters of at most `wa` / `wb` bytes). -/
+theorem covers_iff (r a b : TextTy) (wa wb : Nat) (ha : 1 ≤ wa) (hb : 1 ≤ wb) :
+    covers r a b wa wb = true ↔ ∀ s, (Fits a wa s ∨ Fits b wb s) → accepts r s = true := by
+  constructor
+  · intro h s hs
+    simp only [covers, Bool.and_eq_true] at h
+    rcases hs with hs | hs
+    · have := top_dominates a wa s hs
+      exact accepts_antitone r _ s this.1 this.2 h.1
+    · have := top_dominates b wb s hs
+      exact accepts_antitone r _ s this.1 this.2 h.2
+  · intro h
+    simp only [covers, Bool.and_eq_true]
+    exact ⟨h _ (Or.inl (top_fits a wa ha)), h _ (Or.inr (top_fits b wb hb))⟩
+
+/-- Two CHAR / VARCHAR operands — any lengths, any character sets: the chosen type holds both. -/
+theorem generalize_char_char_covers (a b : TextTy) (wa wb : Nat) (ha : a.text = false) (hb : b.text = false) :
+    covers (generalizeText a b) a b wa wb = true := by
+  unfold covers generalizeText accepts top
+  split <;> simp_all <;> omega
+
+/-- The tiers keep their order when divided by the bytes-per-character of any two character sets. -/
+theorem tier_table : ∀ ta ∈ tiers, ∀ tb ∈ tiers, ∀ ma ∈ [1, 2, 3, 4], ∀ mb ∈ [1, 2, 3, 4],
+    (if ta / ma > tb / mb then ta else tb) ≥ ta ∧ (if ta / ma > tb / mb then ta else tb) ≥ tb := by
+  decide
+
+theorem mb_mem (m : Nat) (h1 : 1 ≤ m) (h4 : m ≤ 4) : m ∈ [1, 2, 3, 4] := by
+  simp only [List.mem_cons, List.not_mem_nil, or_false]; omega
+
+/-- Two TEXT-family operands of any character sets: the chosen type holds both. -/
+theorem generalize_text_text_covers (a b : TextTy) (wa wb : Nat) (ha : a.text = true) (hb : b.text = true)
+    (wfa : a.wf = true) (wfb : b.wf = true) : covers (generalizeText a b) a b wa wb = true := by
+  simp only [TextTy.wf, ha, hb, if_true, Bool.and_eq_true, decide_eq_true_eq, List.contains_iff_mem,
+    beq_iff_eq] at wfa wfb
+  obtain ⟨⟨a1, a4⟩, at', ac⟩ := wfa
+  obtain ⟨⟨b1, b4⟩, bt, bc⟩ := wfb
+  have := tier_table a.bytes at' b.bytes bt a.mb (mb_mem _ a1 a4) b.mb (mb_mem _ b1 b4)
+  unfold covers generalizeText accepts top
+  rw [ac, bc]
+  by_cases hc : a.bytes / a.mb > b.bytes / b.mb <;> simp [hc, ha, hb] at this ⊢ <;> omega
+
+/- Full statement (FALSE on the unchanged tree): `covers (generalizeText a b) a b wa wb` for all
+   well-formed text types — `finding_generalize_char_vs_text` is a counterexample. -/
+
+/-- **Guarded**: unless a character-limited and a byte-limited type meet, the declared type of
+CASE / IF / IFNULL / a set-operation column over two text operands holds every value of both. -/
+theorem generalize_covers_partial (a b : TextTy) (wa wb : Nat) (hreg : MixedFamily a b = false)
+    (wfa : a.wf = true) (wfb : b.wf = true) : covers (generalizeText a b) a b wa wb = true := by
+  cases ha : a.text <;> cases hb : b.text <;> simp [MixedFamily, ha, hb] at hreg
+  · exact generalize_char_char_covers a b wa wb ha hb
+  · exact generalize_text_text_covers a b wa wb ha hb wfa wfb
+
+/-- Non-vacuity / the shape of the seeded class: VARCHAR(10) utf8mb4 and VARCHAR(30) latin1 → the
+latin1 type (30 characters), which holds both. -/
+example : generalizeText ⟨false, 10, 40, 4⟩ ⟨false, 30, 30, 1⟩ = ⟨false, 30, 30, 1⟩ ∧
+    covers (generalizeText ⟨false, 10, 40, 4⟩ ⟨false, 30, 30, 1⟩) ⟨false, 10, 40, 4⟩ ⟨false, 30, 30, 1⟩ 1 1 = true ∧
+    TextTy.wf ⟨false, 10, 40, 4⟩ = true ∧ TextTy.wf ⟨true, 63, 255, 4⟩ = true := by decide
+
+/-- TINYTEXT (63 characters, 255 bytes in utf8mb4) against VARCHAR(100): `Length()` picks the
+VARCHAR, a 200-byte TINYTEXT value does not fit. -/
+theorem finding_generalize_char_vs_text :
+    ∃ a b s, a.wf = true ∧ b.wf = true ∧ MixedFamily a b = true ∧ Fits a 1 s ∧
+      accepts (generalizeText a b) s = false :=
+  ⟨⟨true, 63, 255, 4⟩, ⟨false, 100, 400, 4⟩, ⟨200, 200⟩, by decide, by decide, by decide,
+    ⟨by decide, by decide, by decide⟩, by decide⟩
+
+/-- Comparing storage widths instead of lengths is unsound *within* the CHAR family as soon as the
+character sets differ: VARCHAR(10) utf8mb4 (40 bytes) beats VARCHAR(30) latin1 (30 bytes) and cannot
+hold a 30-character value. -/
+theorem byte_width_generalisation_unsound :
+    ∃ a b s, a.wf = true ∧ b.wf = true ∧ MixedFamily a b = false ∧ Fits b 1 s ∧
+      accepts (generalizeBytes a b) s = false ∧ accepts (generalizeText a b) s = true :=
+  ⟨⟨false, 10, 40, 4⟩, ⟨false, 30, 30, 1⟩, ⟨30, 30⟩, by decide, by decide, by decide,
+    ⟨by decide, by decide, by decide⟩, by decide, by decide⟩
+
+/-! ## Conversions (`expression.Convert`) -/
+
+/- Full statement (FALSE on the unchanged tree): `convOut c s = .null → nullConv c child = true` for
+   every target and every input whose NULL-ness the child flag covers —
+   `finding_convert_time_notnull`, `finding_convert_blob_numeric_notnull` are counterexamples. -/
+
+/-- **Guarded soundness of `Convert.IsNullable`**: for every target and every class of input value
+(whose NULL-ness is covered by the child's flag) outside the two listed classes, the conversion
+yields NULL only if it is reported nullable. -/
+theorem nullConv_sound_partial (c : Conv) (s : Src) (child : Bool) (hchild : s = .null → child = true)
+    (hreg : convRegion c s = .none) (h : convOut c s = .null) : nullConv c child = true := by
+  unfold convRegion at hreg
+  by_cases hs : s = .null
+  · simp [nullConv, hchild hs]
+  · simp only [hs, false_or, h, ne_eq, not_true_eq_false, if_false] at hreg
+    cases c <;> simp_all [nullConv, convAlways, Conv.numeric]
+    -- JSON never yields NULL from a non-NULL input (a value or an error)
+    cases s <;> simp_all [convOut] <;> (split at h <;> simp_all)
+
+/-- Non-vacuity: a NOT NULL VARBINARY holding `ff 41` converts to CHAR as NULL — and CHAR is reported
+nullable; a valid one does not. -/
+example : convOut .char (.bytes [0xff, 0x41] false .junk) = .null ∧ nullConv .char false = true ∧
+    convRegion .char (.bytes [0xff, 0x41] false .junk) = .none ∧
+    convOut .char (.bytes [0x41, 0xc3, 0xa9] false .junk) = .val := by decide
+
+/-- **No target can be dropped from the always-nullable list** (the class of the seeded change):
+each of them turns some non-NULL input into NULL. -/
+theorem convAlways_needed : ∀ c, convAlways c = true → ∃ s, s ≠ .null ∧ convOut c s = .null := by
+  intro c hc
+  cases c <;> simp [convAlways] at hc
+  · exact ⟨.text .unenc, by decide, by decide⟩
+  · exact ⟨.bytes [0xff] false .junk, by decide, by decide⟩
+  · exact ⟨.bytes [0xff] false .junk, by decide, by decide⟩
+  · exact ⟨.num false, by decide, by decide⟩
+  · exact ⟨.num false, by decide, by decide⟩
+
+/-- Invalid UTF-8 is exactly what makes a conversion to CHAR / NCHAR fail. -/
+theorem char_null_iff (s : Src) : convOut .char s = .null ↔
+    s = .null ∨ ∃ b blob sh, s = .bytes b blob sh ∧ Utf8.validUtf8 b = false := by
+  cases s <;> simp [convOut]
+
+theorem finding_convert_time_notnull :
+    ∃ s, s ≠ .null ∧ convOut .time s = .null ∧ nullConv .time false = false ∧ convRegion .time s = .time :=
+  ⟨.text .junk, by decide⟩
+
+theorem finding_convert_blob_numeric_notnull :
+    ∃ c s, s ≠ .null ∧ convOut c s = .null ∧ nullConv c false = false ∧ convRegion c s = .blobNumeric :=
+  ⟨.signed, .bytes [] true .empty, by decide⟩
+
+/-- The class of a value of the integer fragment as `Convert.Eval` sees it (`big` says which
+integers are no valid hhmmss). -/
+def srcOfValue (big : Int → Bool) : Value → Src
+  | .null => .null
+  | .int i => .num (big i)
+  | .str _ => .text .junk
+
+/-- **CAST over the fragment is sound** (style of `nullE_sound`): for every expression of the
+fragment, every target but TIME, all databases and rows respecting the schema flags, `CAST(e AS c)`
+is NULL only if `Convert.IsNullable` over the engine's flag of `e` says so. -/
+theorem cast_frag_sound (db : Db) (sch : List Flags) (env : Env) (henv : EnvOk sch env) (big : Int → Bool)
+    (c : Conv) (hc : c ≠ .time) (e : Expr) (hf : frag e = true)
+    (h : convOut c (srcOfValue big (evalE db env e)) = .null) : nullConv c (nullE sch e) = true := by
+  have ⟨hi, hn⟩ := nullE_sound db sch env henv e hf
+  rcases hi with h0 | ⟨i, hi⟩
+  · simp [nullConv, hn h0]
+  · rw [hi] at h
+    cases c <;> simp_all [srcOfValue, convOut, nullConv, convAlways]
+
+example : convOut .date (srcOfValue (fun _ => false) (evalE [] [[.int 1]] (.col 0 0))) = .null ∧
+    nullConv .date (nullE [[false]] (.col 0 0)) = true ∧
+    convOut .signed (srcOfValue (fun _ => false) (evalE [] [[.int 1]] (.col 0 0))) = .val := by decide
+
+/-- The flag of a set-operation column is sound for the rows of either side (outside the classes). -/
+theorem setopFlag_sound_partial (l r : Fam) (nl nr : Bool) (s : Src) (left : Bool)
+    (hflag : s = .null → (if left then nl else nr) = true)
+    (hreg : convRegion (setopTarget l r) s = .none) (h : convOut (setopTarget l r) s = .null) :
+    setopFlag false l r nl nr = true := by
+  have := nullConv_sound_partial (setopTarget l r) s (if left then nl else nr) hflag hreg h
+  cases left <;> simp_all [setopFlag]
+
+/-- `SELECT x FROM (SELECT b AS x … UNION SELECT n …) dt` with `b VARBINARY NOT NULL` = `ff 41`,
+`n INT NOT NULL`: the set operation converts both sides to CHAR (reported nullable), the enclosing
+scope keeps `left.nullable || right.nullable` = NOT NULL, the row holds NULL. -/
+theorem finding_setop_conversion_scope_notnull :
+    ∃ l r s, s ≠ .null ∧ convOut (setopTarget l r) s = .null ∧ setopScopeFlag false false = false ∧
+      setopFlag false l r false false = true :=
+  ⟨.other, .sint, .bytes [0xff, 0x41] false .junk, by decide⟩
+
 /-! ## Regenerated facts -/
 
 set_option maxRecDepth 100000 in
@@ -441,5 +636,50 @@ theorem facts_match :
       "j.Op.IsLeftOuter() => return append(j.left.Schema(ctx), makeNullable(j.right.Schema(ctx))...)",
       "j.Op.IsRightOuter() => return append(makeNullable(j.left.Schema(ctx)), j.right.Schema(ctx)...)"] ∧
     projectSchemaFromExpression = true := by decide
+
+set_option maxRecDepth 100000 in
+open Gms.Generated.C09 in
+/-- `Convert.IsNullable` is the modelled rule: exactly the five modelled targets return `true`, every
+other one inherits the child's flag; the 14 `castToType` constants are the modelled ones;
+`Convert.Eval` passes NULL through and turns a conversion error into NULL unless the target is JSON. -/
+theorem facts_convert :
+    (∀ c ∈ Conv.all, convAlways c = convertAlwaysNullable.contains c.goConst) ∧
+    (∀ n ∈ convertAlwaysNullable, Conv.all.any (fun c => c.goConst == n) = true) ∧
+    convertNullableDefault = "return c.Child.IsNullable(ctx)" ∧ convertNullableCases = 1 ∧
+    (∀ c ∈ Conv.all, convertConsts.contains (c.goConst, c.name) = true) ∧ convertConsts.length = 14 ∧
+    convertEvalIfs = [
+      "err != nil => { return nil, err }",
+      "val == nil => { return nil, nil }",
+      "err != nil => { if c.castToType == ConvertToJSON { return nil, ErrConvertExpression.Wrap(err, c.String(), c.castToType) } ctx.Warn(1292, \"Incorrect %s value: %v\", c.castToType, val) return nil, nil }"] := by
+  decide
+
+set_option maxRecDepth 100000 in
+open Gms.Generated.C09 in
+/-- The text branch of `GeneralizeTypes` compares `Length()` (= `maxCharLength`), and the compiled
+function returns what `generalizeText` returns on every pair of the regenerated table (CHAR / VARCHAR /
+TINYTEXT / TEXT … × 5 character sets). -/
+theorem facts_generalize :
+    generalizeTextBranch = ["sta := a.(sql.StringType)", "stb := b.(sql.StringType)",
+      "if sta.Length() > stb.Length() { return a }", "return b"] ∧
+    stringTypeLength = "{ return t.maxCharLength }" ∧
+    generalizeRuns.length ≥ 500 ∧
+    (∀ r ∈ generalizeRuns,
+      generalizeText (TextTy.ofTuple r.1) (TextTy.ofTuple r.2.1) = TextTy.ofTuple r.2.2) := by
+  decide
+
+set_option maxRecDepth 100000 in
+open Gms.Generated.C09 in
+/-- The compiled `GetConvertToType` answers as `setopTarget` on representatives of every pair of
+families; the flag of a set-operation column is the OR of the sides' flags — of the converted sides in
+`SetOp.Schema`, of the unconverted scope columns in `mergeSetOpScopeColumns`. -/
+theorem facts_setop_conversion :
+    convertToTypeRuns.length ≥ 80 ∧
+    (∀ r ∈ convertToTypeRuns,
+      (match Fam.ofName r.1, Fam.ofName r.2.1 with
+        | some l, some r' => (setopTarget l r').name == r.2.2
+        | _, _ => false) = true) ∧
+    setopSchemaNullable = "ls[i].Nullable || rs[i].Nullable" ∧
+    setopScopeNullable = "left[i].nullable || right[i].nullable" := by
+  decide
 
 end Gms.C09
